@@ -289,15 +289,15 @@ PROPS['C01'] = P_('parsing is total', 'tok,arena', plan(G_COMMON_QUICK, G_COMMON
                   observable=None, internal=['RES', 'TKRES'], impl_checks=[chk_no_panic, chk_depth], limits=True,
                   special='scale_parse')
 PROPS['C02'] = P_('well-formed ordered tree', 'arena', plan(G_COMMON_QUICK, G_COMMON_THOROUGH),
-                  observable=mk_obs(lambda d: d.structure()), internal=['N'], oracles=['C02.'])
+                  observable=mk_obs(lambda d: d.structure()), internal=['N'], oracles=['C02.'], special='tree')
 PROPS['C03'] = P_('markup mirrors the logical structure', 'tok,arena', plan(G_COMMON_QUICK, G_COMMON_THOROUGH),
-                  observable=mk_obs(lambda d: d.markup()), internal=['TK', 'TKRES'], accept_tie=True)
+                  observable=mk_obs(lambda d: d.markup()), internal=['TK', 'TKRES'], special='markup')
 PROPS['C04'] = P_('character data decoding', 'arena,ev',
                   plan(G_COMMON_QUICK[:2] + [['pieces-text', 2]], G_COMMON_THOROUGH[:3] + [['pieces-text', 4]]),
-                  observable=mk_obs(lambda d: d.texts()), internal=['EV F'])
+                  observable=mk_obs(lambda d: d.texts()), internal=['EV F'], special='pieces_text')
 PROPS['C05'] = P_('attributes', 'arena,ev',
                   plan(G_COMMON_QUICK[:2] + [['pieces-attr', 2]], G_COMMON_THOROUGH[:3] + [['pieces-attr', 4]]),
-                  observable=mk_obs(lambda d: d.attributes()), internal=['EV V'])
+                  observable=mk_obs(lambda d: d.attributes()), internal=['EV V'], special='pieces_attr')
 PROPS['C06'] = P_('namespaces', 'arena', plan(G_COMMON_QUICK, G_COMMON_THOROUGH),
                   observable=mk_obs(lambda d: d.namespaces()), internal=['V', 'O'], special='ns_scale')
 PROPS['C07'] = P_('entity reference = replacement text', 'arena', plan([['model', 1500, 10]], [['model', 20000, 10]]),
